@@ -230,6 +230,32 @@ def check(chk):
         sets = [x for x in ast.walk(h.node) if isinstance(x, ast.Assign) and src(x.targets[0]) == "mode.player"]
         ok = bool(sets) and all(src(x.value) == val for x in sets)
         chk.ob("DOM-22", "ModeController.%s sets mode.player = %s for every mode" % (fn, val), ok, h.where(), construct=h.ident, text="mode.player " + fn)
+        # ... for *every* game mode: the only thing that exempts a mode is that it is not a game mode (a mode left bound to the
+        # previous game's player after an aborted game must be re-bound too), and the loop ranges over all modes
+        hcfg = h.cfg()
+        from sa.cfg import canon_set
+        for x in sets:
+            node = [n_ for n_ in hcfg.nodes if n_.kind == "stmt" and n_.ast is x][0]
+            g = {(k[4:], not v) if k.startswith("not ") else (k, v) for k, v in canon_set(hcfg.guards_at(node.id))}
+            chk.ob("DOM-22", "ModeController.%s rebinds every game mode - nothing but `is_game_mode` selects" % fn, g == {("mode.is_game_mode", True)},
+                   h.where(x), detail="selection %s" % sorted(g), construct=h.ident, text="mode.player selection " + fn)
+        loops = [lp for lp in ast.walk(h.node) if isinstance(lp, ast.For) and any(y is sets[0] for y in ast.walk(lp))] if sets else []
+        ok = bool(loops) and src(loops[-1].iter) == "self.machine.modes.values()" and not any(isinstance(y, (ast.Break, ast.Return)) for y in ast.walk(loops[-1]))
+        chk.ob("DOM-22", "ModeController.%s visits all modes of the machine" % fn, ok, h.where(), construct=h.ident, text="mode.player loop " + fn)
+    # the ball-end barrier that separates two players' turns waits for every game mode that stops at ball end (shared with C02 PAIR-2)
+    be = repo.func(MC, "ModeController._ball_ending")
+    chk.analysed(be)
+    bcfg = be.cfg()
+    st = [(n_, c_) for n_, c_ in bcfg.calls_named("stop") if src(c_.func.value) == "mode" and kwarg(c_, "callback") is not None]
+    chk.need(len(st) == 1, "DOM-22", "_ball_ending stops the game modes with a completion callback", be)
+    from sa.cfg import canon_set
+    g = {(k[4:], not v) if k.startswith("not ") else (k, v) for k, v in canon_set(bcfg.guards_at(st[0][0].id)) if "mode." in k}
+    chk.ob("DOM-22", "the turn does not change before every game mode that stops at ball end has stopped (none is exempted, e.g. one already stopping)",
+           g == {("mode.is_game_mode", True), ("mode.auto_stop_on_ball_end", True)}, be.where(st[0][1]), detail="selection %s" % sorted(g), construct=be.ident,
+           text="ball end waits for selection")
+    cnt = [n_ for n_ in bcfg.nodes if n_.kind == "stmt" and isinstance(n_.ast, ast.AugAssign) and src(n_.ast.target) == "self.mode_stop_count"]
+    ok = len(cnt) == 1 and canon_set(bcfg.guards_at(cnt[0].id)) == canon_set(bcfg.guards_at(st[0][0].id)) and bcfg.dominates(cnt[0].id, st[0][0].id)
+    chk.ob("DOM-22", "each awaited mode stop is counted (before it is requested)", ok, be.where(), construct=be.ident, text="ball end count")
 
 
 def _maybe_mutable_config(repo, cls, expr):
@@ -431,6 +457,9 @@ def battery():
         M("players[N] existence check off by one", "mpf/core/placeholder_manager.py", "                if len(self._machine.game.player_list) <= self._number:\n                    raise ValueError(\"Player not in game\")\n                return getattr(", "                if len(self._machine.game.player_list) < self._number:\n                    raise ValueError(\"Player not in game\")\n                return getattr(", "IDX-1"),
         M("players[N] attribute access one-based", "mpf/core/placeholder_manager.py", "                return getattr(self._machine.game.player_list[self._number], item)", "                return getattr(self._machine.game.player_list[self._number - 1], item)", "IDX-1"),
         M("twin: game aliased in variable_player", "mpf/config_players/variable_player.py", "            # default to current player\n            player = self.machine.game.player\n            if entry['player']:\n                # specific player\n                try:\n                    player = self.machine.game.player_list[entry['player'] - 1]\n                except IndexError:\n                    self.warning_log(\"Failed to set player var %s for player %s. There are only %s players.\",\n                                     var, entry['player'] - 1, self.machine.game.num_players)\n            player.add_with_kwargs", "            # default to current player\n            game = self.machine.game\n            player = game.player\n            if entry['player']:\n                # specific player\n                try:\n                    player = game.player_list[entry['player'] - 1]\n                except IndexError:\n                    self.warning_log(\"Failed to set player var %s for player %s. There are only %s players.\",\n                                     var, entry['player'] - 1, self.machine.game.num_players)\n            player.add_with_kwargs", None),
+        M("modes still bound to an old player are not re-bound at turn start", MC, "            if not mode.is_game_mode:\n                continue\n            mode.player = player", "            if not mode.is_game_mode or mode.player:\n                continue\n            mode.player = player", "DOM-22"),
+        M("turn changes while a stopping mode is still bound", MC, "            if mode.auto_stop_on_ball_end:\n", "            if mode.auto_stop_on_ball_end and not mode.stopping:\n", "DOM-22"),
+        M("twin: turn start loop with a positive test", MC, "            if not mode.is_game_mode:\n                continue\n            mode.player = player", "            if mode.is_game_mode:\n                mode.player = player", None),
     ]
 
 
